@@ -751,6 +751,7 @@ pub fn exec_map<const N: usize>(cage: &mut Cage<Map<Key, Val, N>>, op: &Value, c
             };
             bind_clones(ctx, cage.m.iter().flat_map(|(k, v)| [k.serial, v.serial]).collect());
             let mut copy = Cage::new(c);
+            c05_other_map(ctx, &copy.m, "clone");
             let cl: Vec<Value> = copy.m.iter().map(|(k, v)| ctx.je(k, v)).collect();
             {
                 let (x, y) = (&copy.m, &cage.m);
@@ -795,6 +796,9 @@ pub fn exec_map<const N: usize>(cage: &mut Cage<Map<Key, Val, N>>, op: &Value, c
                 return json!(["panic"]);
             }
             bind_clones(ctx, cage.m.iter().flat_map(|(k, v)| [k.serial, v.serial]).collect());
+            if dst.intact() && dst.m.len() <= N {
+                c05_other_map(ctx, &dst.m, "destination of clone_from");
+            }
             let cl: Vec<Value> = dst.m.iter().map(|(k, v)| ctx.je(k, v)).collect();
             let (x, y) = (&dst.m, &cage.m);
             let eq = call(ctx, || x == y) == Some(true) && call(ctx, || y == x) == Some(true);
@@ -851,6 +855,35 @@ pub fn exec_map<const N: usize>(cage: &mut Cage<Map<Key, Val, N>>, op: &Value, c
             r
         }
         other => panic!("exec_map: unknown op {other}"),
+    }
+}
+
+/// the standing predicate of C05 on a container other than the one under test (a clone, the
+/// destination of clone_from): keys pairwise unequal, len() = what iteration yields, is_empty
+fn c05_other_map<const N: usize>(ctx: &mut Ctx, m: &Map<Key, Val, N>, what: &str) {
+    let ks: Vec<(Cls, u32)> = m.iter().map(|(k, _)| (k.class(), k.serial)).collect();
+    if ks.len() != m.len() || m.is_empty() != ks.is_empty() || m.len() > N {
+        ctx.note("C05", format!("{what}: len() = {} but iteration yields {} entries (capacity {N})", m.len(), ks.len()));
+    }
+    for a in 0..ks.len() {
+        for b in (a + 1)..ks.len() {
+            if ks[a].0 == ks[b].0 {
+                ctx.note("C05", format!("{what}: two stored keys are equal (class {})", ks[a].0));
+            }
+        }
+    }
+}
+fn c05_other_set<const N: usize>(ctx: &mut Ctx, m: &Set<Key, N>, what: &str) {
+    let ks: Vec<Cls> = m.iter().map(|k| k.class()).collect();
+    if ks.len() != m.len() || m.is_empty() != ks.is_empty() || m.len() > N {
+        ctx.note("C05", format!("{what}: len() = {} but iteration yields {} elements (capacity {N})", m.len(), ks.len()));
+    }
+    for a in 0..ks.len() {
+        for b in (a + 1)..ks.len() {
+            if ks[a] == ks[b] {
+                ctx.note("C05", format!("{what}: two stored elements are equal (class {})", ks[a]));
+            }
+        }
     }
 }
 
@@ -1692,6 +1725,7 @@ pub fn exec_set<const N: usize>(cage: &mut Cage<Set<Key, N>>, op: &Value, ctx: &
             };
             bind_clones(ctx, cage.m.iter().map(|k| k.serial).collect());
             let mut copy = Cage::new(c);
+            c05_other_set(ctx, &copy.m, "clone");
             let cl: Vec<Value> = copy.m.iter().map(|k| ctx.je_set(k)).collect();
             {
                 let (x, y) = (&copy.m, &cage.m);
@@ -1734,6 +1768,9 @@ pub fn exec_set<const N: usize>(cage: &mut Cage<Set<Key, N>>, op: &Value, ctx: &
                 return json!(["panic"]);
             }
             bind_clones(ctx, cage.m.iter().map(|k| k.serial).collect());
+            if dst.intact() && dst.m.len() <= N {
+                c05_other_set(ctx, &dst.m, "destination of clone_from");
+            }
             let cl: Vec<Value> = dst.m.iter().map(|k| ctx.je_set(k)).collect();
             let (x, y) = (&dst.m, &cage.m);
             let eq = call(ctx, || x == y) == Some(true) && call(ctx, || y == x) == Some(true);
